@@ -1083,6 +1083,26 @@ func ruleC14Select(c *Ctx) {
 						okBind = true
 					}
 				}
+				// or through a method of that connection all of whose returns are such a call on its receiver
+				if call, ok := st.Val.(*ssa.Call); ok && !okBind && len(call.Call.Args) > 0 && csStored != nil && call.Call.Args[0] == csStored {
+					if g := call.Call.StaticCallee(); g != nil && c.InPkg(g) && len(g.Params) > 0 {
+						all, any := true, false
+						for _, b := range g.Blocks {
+							if ret, ok := b.Instrs[len(b.Instrs)-1].(*ssa.Return); ok && len(ret.Results) >= 1 {
+								any = true
+								inner, ok := ret.Results[0].(*ssa.Call)
+								if !ok || len(inner.Call.Args) == 0 {
+									all = false
+									continue
+								}
+								if base, f2 := loadedField(inner.Call.Args[0]); f2 != fDs || base != ssa.Value(g.Params[0]) {
+									all = false
+								}
+							}
+						}
+						okBind = all && any
+					}
+				}
 				if okBind {
 					c.S.OK("R-C14-select", key, c.Pos(st.Pos()), "command bound to the selected database of its own connection")
 				} else {
